@@ -2908,7 +2908,9 @@ impl Translator {
                     self.collect_locals_pat(&pat.0, locals, mono);
                     self.collect_locals_expr(expr, locals, mono);
                 }
-                StmtKind::Assign(_, _, expr) => {
+                StmtKind::Assign(lhs, _, expr) => {
+                    // the target may declare locals too: `arr[{ let i = 1; i }] = 5`
+                    self.collect_locals_expr(lhs, locals, mono);
                     self.collect_locals_expr(expr, locals, mono);
                 }
                 StmtKind::Continue | StmtKind::Break => {}
